@@ -145,6 +145,11 @@ Step1 ==
          [] e.ev = "TickEnd" ->
               Step(lc, loopg, hs, pend, req, [eng EXCEPT !.tickBusy = FALSE, !.tickDue = e.ms + e.delay],
                    Check(eng.tickBusy /\ e.n = eng.tickN, "TicksOneAtATime", <<e.n, eng.tickN, eng.tickBusy>>, Final(viols, "TickEnd")))
+         \* a callback that goes on writing to the connection it has just closed (EventLoop.Close) is refused, and nothing
+         \* reaches whatever owns the descriptor number by then ("never acting on another connection")
+         [] e.ev = "StaleWrite" ->
+              Same(Check(e.err # "nil" /\ e.errv # "nil" /\ e.n = 0 /\ e.nv = 0 /\ e.leaked = 0, "ClosedConnRejectsWrites",
+                         <<e.c, e.n, e.err, e.nv, e.errv, e.leaked>>, viols))
          [] e.ev = "RunRet" ->
               LET open == {c \in DOMAIN lc : lc[c].life = "open"}
                   v1 == Check(e.err = "nil", "RunReturnsNil", e.err, viols)
